@@ -14,7 +14,7 @@ import gmpy2 as gmp
 
 from ...utils import enum_repr
 from ..context import Context
-from ..gmputils import float_to_mpfr, mpfr_call
+from ..gmputils import _round_odd, float_to_mpfr, mpfr_call
 from ..number import Float
 from .engine import Engine, EngineArg, EngineRes
 
@@ -97,6 +97,61 @@ _constant_exprs: dict[_Constant, Callable[[], gmp.mpfr]] = {
 }
 
 
+_composed_constants = frozenset({
+    _Constant.LOG2E,
+    _Constant.LOG10E,
+    _Constant.PI_2,
+    _Constant.PI_4,
+    _Constant.M_1_PI,
+    _Constant.M_2_PI,
+    _Constant.M_2_SQRTPI,
+})
+"""
+Constants whose expression applies more than one inexact MPFR operation.
+Evaluating these directly at `prec + 2` digits rounds an intermediate value,
+and only the last operation reports whether it was inexact.
+"""
+
+
+def _mpfr_eval_nearest(fn: Callable[[], gmp.mpfr], prec: int):
+    """Evaluates `fn()` with `prec` digits of working precision."""
+    with gmp.context(
+        precision=prec,
+        emin=gmp.get_emin_min(),
+        emax=gmp.get_emax_max(),
+        trap_underflow=False,
+        trap_overflow=False,
+        trap_inexact=False,
+        trap_divzero=False,
+        round=gmp.RoundToNearest,
+    ):
+        return fn()
+
+
+def _mpfr_truncated_constant(fn: Callable[[], gmp.mpfr], prec: int):
+    """
+    Computes the (irrational) constant `fn()` truncated to `prec` digits.
+
+    The expression `fn` may round several times, so it is evaluated with
+    extra working precision until every value within its error bound
+    truncates to the same `prec` digits (Ziv's strategy).
+    """
+    wprec = prec + 32
+    while True:
+        v = _mpfr_eval_nearest(fn, wprec)
+        # a handful of roundings to nearest: the error is within 8 ulps
+        with gmp.context(precision=wprec + 8, round=gmp.RoundToNearest):
+            err = gmp.exp2(gmp.get_exp(v) - wprec + 3)
+            lo = v - err
+            hi = v + err
+        with gmp.context(precision=prec, round=gmp.RoundToZero):
+            tlo = gmp.mpfr(lo)
+            thi = gmp.mpfr(hi)
+        if tlo == thi:
+            return tlo
+        wprec *= 2
+
+
 def _mpfr_constant(x: _Constant, *, prec: int | None = None, n: int | None = None):
     """
     Computes constant `x` such that it may be safely re-rounded
@@ -104,9 +159,23 @@ def _mpfr_constant(x: _Constant, *, prec: int | None = None, n: int | None = Non
     """
     try:
         fn = _constant_exprs[x]
-        return mpfr_call(fn, (), prec=prec, n=n)
     except KeyError as e:
         raise ValueError(f'unknown constant {e.args[0]!r}') from None
+
+    if x not in _composed_constants:
+        return mpfr_call(fn, (), prec=prec, n=n)
+
+    if prec is None:
+        if n is None:
+            raise ValueError('Either `prec` or `n` must be specified')
+        # the constant is a fixed value, so any evaluation gives its exponent;
+        # `e - n` digits lie above the `n`th digit
+        e: int = gmp.get_exp(_mpfr_eval_nearest(fn, 64)) - 1
+        prec = max(e - n, 0)
+
+    # two extra digits for the rounding bits; an irrational is always inexact
+    result = _mpfr_truncated_constant(fn, prec + 2)
+    return _round_odd(result, True)
 
 
 _mpfr_engine_inst = None
